@@ -203,6 +203,12 @@ func (x *explorer) runDocs(name string, n int64, at func(i int64, buf []int) (do
 			try(docCase{Loader: "bytes", EI: true})
 			try(docCase{Loader: "message"})
 		}
+		if name == "member-names-x-failing-values" {
+			// the same documents in a runtime whose allocation cap is 2 members
+			for m := 0; m < 4; m++ {
+				try(docCase{Loader: "string", SN: m&1 != 0, EI: m&2 != 0, Cap: memberCap})
+			}
+		}
 		if toks != nil && len(toks) <= defaultsUpTo {
 			for m := 0; m < 4; m++ {
 				try(docCase{Loader: "string", SN: m&1 != 0, EI: m&2 != 0, Defaults: true})
@@ -237,7 +243,7 @@ func run(r *core.Run) {
 	r.Rule("V: every value of the families below is built with the public lisp constructors, bound to a global of a real stdlib runtime and sent through " +
 		"json:dump-string (twice), dump-bytes, dump-message/message-bytes (each also with :string-numbers, and under the json:use-string-numbers default) and back through " +
 		"load-string {default, :exact-integers, :string-numbers}, load-bytes, load-message and equal?. " +
-		"D: every token sequence of length <= L over the 32-token document alphabet (concatenated without separators), every byte string of length <= 2, every string literal whose raw body is any single byte / any pair over a 48-byte class alphabet (all 256 bytes in thorough) / any triple over a 12-byte alphabet placed at 8 grammar positions (whole document, padded, array element, member name, member value), and every byte 0..255 inserted at and substituted for every offset of 26 template documents (each scalar kind as the whole document, padded, nested), " +
+		"D: every token sequence of length <= L over the 32-token document alphabet (concatenated without separators), every byte string of length <= 2, every string literal whose raw body is any single byte / any pair over a 48-byte class alphabet (all 256 bytes in thorough) / any triple over a 12-byte alphabet placed at 8 grammar positions (whole document, padded, array element, member name, member value), every byte 0..255 inserted at and substituted for every offset of 26 template documents (each scalar kind as the whole document, padded, nested), and every member N:V with N over a 9-name boundary alphabet (empty name, one space, escapes, U+FFFF, astral, plain) and V over 17 values (integers beyond int64, floats beyond float64, over-cap containers, the same nested, plain values) at 8 object positions plus every two-member object over those pairs (equal names included), also loaded in a runtime whose allocation cap is 2 members, " +
 		"through load-string, load-bytes, load-message x the four (:string-numbers, :exact-integers) keyword combinations (sequences of 5 tokens, thorough only: load-string x 4 modes, load-bytes :exact-integers, load-message default), plus load-string under the four json:use-* default combinations for the shorter sequences. " +
 		"H: every dump history of the shapes {bad,fix,good | bad,bad,fix,good | good,poison,bad,fix,good | bad,fix,good-rewrapped | bad,other-good,fix,good} over towers of maps / vectors / lists-in-maps of the stated depths (around the encoder's 64-level second pass), " +
 		"failing leaf in {NaN,+Inf,-Inf,lambda,self-reference,reference to the root} set and repaired IN PLACE with assoc!/dissoc!, through dump-string / dump-bytes / dump-message with and without :string-numbers (failing and final dump through the same form, plus every pair of different forms at depth 80); non-trivial history = the tower reaches the second pass. " +
@@ -252,6 +258,7 @@ func run(r *core.Run) {
 	r.Assume("UNSPECIFIED (only 'no host panic' and, for dump, 'no invalid document' are asserted): NaN and the infinities; a syntactically valid document holding a number beyond the float64 range (1e999) outside :string-numbers - any outcome except json:syntax-error; a document with ill-formed UTF-8 inside a string - accepted or rejected, structure compared when accepted; the content of a string written with an unpaired \\uD800-style escape (must be accepted)")
 	r.Assume("duplicate member names: last wins; under :exact-integers '-0' stays a float and an oversized integer literal that is already canonical float text (10000000000000000000) loads as that float - both as documented in docs/lang.md")
 	r.Assume("HISTORY part: a successful dump must be byte-identical to the dump of a structurally equal value freshly built in a runtime that never saw a failing dump; a finite acyclic value must never be refused; a refusal must not claim a cycle ('contains itself' - the one place message text is read, because the clause is about the stated reason) unless the value has one. What a dump of NaN/Inf/a function/a cyclic value does is otherwise unspecified (no panic; no invalid document). The whole history space runs single-goroutine in a child process with GOMAXPROCS=1 GOGC=off (collections only between histories) so that reuse of pooled encoder state is deterministic; the in-process sub-space is labelled 'in-process' (reuse likely, not guaranteed)")
+	r.Assume("a load that succeeds never hands back an error value anywhere inside its result (checked on every accepted document, unspecified zones included). UNSPECIFIED: a container with more members than the runtime's allocation cap (Runtime.MaxAlloc) - refused, not as json:syntax-error, or loaded as plain data")
 	r.Assume("invalid documents must be rejected in every mode; the condition must be json:syntax-error unless :string-numbers is in force (the statement names only the default and :exact-integers modes)")
 
 	// ----- H: dump histories (child process + in-process sub-space)
@@ -426,6 +433,11 @@ func run(r *core.Run) {
 	x.runDocs("every-byte-at-every-offset-of-templates", int64(len(edits))*256, func(i int64, _ []int) ([]byte, []string) {
 		return edits[i/256].apply(byte(i % 256)), nil
 	}, 0, 0)
+	mdocs := memberDocs()
+	r.Bound("doc_member_names", memberNames)
+	r.Bound("doc_member_values", len(memberValues))
+	r.Bound("doc_member_max_alloc_cap", memberCap)
+	x.runDocs("member-names-x-failing-values", int64(len(mdocs)), func(i int64, _ []int) ([]byte, []string) { return mdocs[i], nil }, 0, 0)
 	ds := newSeqSpace(len(docTokens), L)
 	x.runDocs("token-sequences", ds.total, func(i int64, buf []int) ([]byte, []string) {
 		idx := ds.at(i, buf)
